@@ -111,10 +111,20 @@ def run(ctx):
      ctx.violation('R2', 'loop_carried_dependencies', lcd.where, f'returns {rets}, expected loop.uses_symbols & loop.defines_symbols'))
     raw = m.get_function(FILE, 'read_after_write_vars')
     src = ast.unparse(raw.node)
-    checks = {'writes before the inspection node': X.has(src, 'FindWrites(stop=inspection_node, active=True)'),
-              'reads from the inspection node on': X.has(src, 'FindReads(start=inspection_node, candidate_set=write_visitor.writes'),
-              'returns the reads': X.has(src, 'return read_visitor.reads'),
-              'both visitors traverse the same IR': src.count('.visit(ir)') == 2}
+    ipar, npar = [a.arg for a in raw.node.args.args][:2]
+    wv = (X.names_assigned_from(raw.node, 'FindWrites(') or [None])[0]
+    rv = (X.names_assigned_from(raw.node, 'FindReads(') or [None])[0]
+    calls = {X.call_name_of(c): c for c in ast.walk(raw.node) if isinstance(c, ast.Call) and X.call_name_of(c) in ('FindWrites', 'FindReads')}
+
+    def kw(c, name):
+        return next((ast.unparse(k.value) for k in c.keywords if k.arg == name), None) if c is not None else None
+    fw_, fr_ = calls.get('FindWrites'), calls.get('FindReads')
+    checks = {'writes before the inspection node': fw_ is not None and kw(fw_, 'stop') == npar and kw(fw_, 'active') == 'True',
+              'reads from the inspection node on': fr_ is not None and kw(fr_, 'start') == npar and wv is not None
+              and kw(fr_, 'candidate_set') == f'{wv}.writes' and kw(fr_, 'clear_candidates_on_write') == 'True',
+              'returns the reads': rv is not None and any(isinstance(r, ast.Return) and ast.unparse(r.value) == f'{rv}.reads'
+                                                          for r in ast.walk(raw.node)),
+              'both visitors traverse the same IR': src.count(f'.visit({ipar})') == 2}
     for k, v in checks.items():
         (ctx.judge('R2', f'read_after_write_vars:{k}') if v else
          ctx.violation('R2', f'read_after_write_vars:{k}', raw.where, f'wiring lost: {k}'))
